@@ -2180,9 +2180,8 @@ class Measurement:
         if theirs is ours:
             return other.uncertainty
         zero = Quantity(0, theirs).in_unit(ours)
-        if not zero.magnitude:
-            return other.uncertainty
-        return other.uncertainty.in_unit(ours) - zero
+        converted = other.uncertainty.in_unit(ours)
+        return converted - zero if zero.magnitude else converted
 
     def __add__(self, other: Union["Measurement", Quantity]) -> "Measurement":
         if isinstance(other, Quantity):
